@@ -612,3 +612,150 @@ Section Complete.
       change (VCell (tt_id x) (tw_idx w') t' i') with (cell_var x (w', t', (i', s'))) in Ha. rewrite ap_cell, Fp in Ha. lia.
   Qed.
 End Complete.
+
+(* ------------------------------------------------------------------ objective and maximality (C14 part) *)
+Definition rewarded_f (I : tinst) (x : ttask) : bool :=
+  match ti_flavour I with Gurobi => rewarded I x | Cplex => true end.
+Definition taskval (I : tinst) (a : assignment) (y : ttask) : Z :=
+  sumf (fun c => (match c with (_, t, _) => reward_num I t end) * a (cell_var y c)) (var_cells I y).
+
+Lemma free_all : forall I, (forall x, In x (ti_tasks I) -> is_running x = false) -> free_tasks I = ti_tasks I.
+Proof.
+  intros I Hn. unfold free_tasks. induction (ti_tasks I) as [|x l IH]; [reflexivity|]. cbn.
+  rewrite (Hn x (or_introl eq_refl)). cbn. f_equal. apply IH. intros; apply Hn; now right.
+Qed.
+
+Lemma obj_eq : forall I a, (forall x, In x (ti_tasks I) -> is_running x = false) -> sat (gen_tetri I) a = true ->
+  objective (gen_tetri I) a = sumf (fun y => if rewarded_f I y then taskval I a y else 0) (ti_tasks I).
+Proof.
+  intros I a Hnr Hsat. unfold objective. cbn [gen_tetri cs_obj]. unfold obj_terms, rewarded_f.
+  assert (Hfree : free_tasks I = ti_tasks I) by (now apply free_all).
+  destruct (ti_flavour I) eqn:Hfl.
+  - rewrite eval_lin_sumf, sumf_flat_map. apply sumf_ext. intros y Hy. rewrite (Hnr y Hy). cbn [orb].
+    destruct (rewarded I y); cbn [negb]; [|reflexivity]. rewrite sumf_map. unfold taskval. apply sumf_ext.
+    intros [[w t] [i s]] _. reflexivity.
+  - rewrite eval_lin_sumf, sumf_flat_map. apply sumf_ext. intros y Hy. rewrite (Hnr y Hy). cbn [sumf fst snd].
+    (* the reward row ties the reward variable to the cells *)
+    assert (Hr : In (CLin (RRewardRow (tt_id y)) ((1, VReward (tt_id y)) ::
+                      map (fun c => match c with (_, t, _) => (- reward_num I t, cell_var y c) end) (var_cells I y)) SEq 0) (task_rows I y)).
+    { unfold task_rows. rewrite Hfl. apply in_or_app. right. apply in_or_app. right. now left. }
+    assert (Hyf : In y (free_tasks I)) by (rewrite Hfree; auto).
+    pose proof (sat_rows _ _ _ Hsat (row_of_task _ _ _ Hyf Hr)) as S. cbn [sat_constr cmp] in S.
+    rewrite eval_lin_cons, eval_lin_sumf, sumf_map in S.
+    assert (E : sumf (fun x0 => fst (let '(_, t, _) := x0 in (- reward_num I t, cell_var y x0)) *
+                          a (snd (let '(_, t, _) := x0 in (- reward_num I t, cell_var y x0)))) (var_cells I y) = - taskval I a y).
+    { unfold taskval. assert (G : forall l, sumf (fun x0 : tworker * Z * (nat * strat) => fst (let '(_, t, _) := x0 in (- reward_num I t, cell_var y x0)) *
+                          a (snd (let '(_, t, _) := x0 in (- reward_num I t, cell_var y x0)))) l =
+                          - sumf (fun c => (let '(_, t, _) := c in reward_num I t) * a (cell_var y c)) l).
+      { induction l as [|[[w t] [i s]] l IH]; cbn [sumf]; [reflexivity|]. rewrite IH. cbn [fst snd]. lia. }
+      apply G. }
+    rewrite E in S. lia.
+Qed.
+
+Lemma find_split : forall A (f : A -> bool) l x, find f l = Some x -> exists l1 l2, l = l1 ++ x :: l2.
+Proof.
+  induction l as [|b l IH]; intros x F; cbn in F; [discriminate|]. destruct (f b).
+  - inversion F; subst. exists [], l. reflexivity.
+  - destruct (IH x F) as [l1 [l2 ->]]. exists (b :: l1), l2. reflexivity.
+Qed.
+Lemma sumf_nonneg_zero : forall A (f : A -> Z) l, (forall x, In x l -> 0 <= f x) -> sumf f l <= 0 -> forall x, In x l -> f x = 0.
+Proof.
+  induction l as [|b l IH]; intros Hn Hs x Hx; [contradiction|]. cbn [sumf] in Hs.
+  assert (0 <= f b) by (apply Hn; now left). assert (0 <= sumf f l) by (apply sumf_nonneg; intros; apply Hn; now right).
+  destruct Hx as [->|Hx]; [lia|]. apply IH; auto; [intros; apply Hn; now right|lia].
+Qed.
+
+Lemma taskval_readback : forall I a y, sat (gen_tetri I) a = true -> In y (free_tasks I) ->
+  taskval I a y = match readback_task I a y with Some q => reward_num I (pl_start q) | None => 0 end.
+Proof.
+  intros I a y Hsat Hy. unfold taskval, readback_task.
+  pose proof (cellsum_le_1 I a Hsat y Hy) as Hle. unfold cellsum in Hle.
+  assert (Hb : forall c, In c (var_cells I y) -> 0 <= a (cell_var y c) <= 1) by (intros; now apply (cell_binary I a Hsat)).
+  destruct (find (fun c => a (cell_var y c) =? 1) (var_cells I y)) as [[[w t] [i s]]|] eqn:F.
+  - pose proof (find_some _ _ F) as [Hin H1]. cbn beta in H1. apply Z.eqb_eq in H1.
+    destruct (find_split _ _ _ _ F) as [l1 [l2 El]]. rewrite El in *. rewrite sumf_app in *. cbn [sumf] in *.
+    assert (Hz : forall c, In c (l1 ++ l2) -> a (cell_var y c) = 0).
+    { apply sumf_nonneg_zero.
+      - intros c Hc. apply Hb. apply in_app_or in Hc. apply in_or_app. destruct Hc; [now left|right; now right].
+      - rewrite sumf_app. lia. }
+    rewrite (sumf_zero _ _ l1), (sumf_zero _ _ l2).
+    + cbn [pl_start]. lia.
+    + intros c Hc. rewrite (Hz c); [lia|]. apply in_or_app. now right.
+    + intros c Hc. rewrite (Hz c); [lia|]. apply in_or_app. now left.
+  - apply sumf_zero. intros c Hc. pose proof (find_none _ _ F c Hc) as N. cbn beta in N. specialize (Hb c Hc).
+    assert (a (cell_var y c) = 0) by lia. lia.
+Qed.
+
+Lemma reward_num_pos : forall I t, 0 < ti_disc I -> In t (slots I) -> 1 <= reward_num I t.
+Proof.
+  intros I t Hd Ht. pose proof (slots_ge_now I t Hd Ht). pose proof (slot_le_last I t Hd Ht).
+  unfold reward_num, first_slot. destruct (last_slot I - ti_now I =? 0) eqn:E; lia.
+Qed.
+
+Lemma find_pl_readback : forall I a y, NoDup (map tt_id (ti_tasks I)) -> In y (free_tasks I) ->
+  find_pl (plan_of (readback I a)) (tt_id y) = readback_task I a y.
+Proof.
+  intros I a y Hn Hy. destruct (readback_task I a y) as [q|] eqn:R.
+  - assert (Hin : In q (plan_of (readback I a))) by (apply In_plan; eauto).
+    rewrite <- (readback_pl_task _ _ _ _ R). apply find_pl_NoDup; auto. now apply plan_NoDup.
+  - destruct (find_pl (plan_of (readback I a)) (tt_id y)) as [q|] eqn:F; [|reflexivity]. exfalso.
+    apply find_pl_In in F. destruct F as [Hq Eq]. apply In_plan in Hq. destruct Hq as [z [Hz Rz]].
+    pose proof (readback_pl_task _ _ _ _ Rz) as E. rewrite Eq in E.
+    apply free_tasks_In in Hy. apply free_tasks_In in Hz. destruct Hy as [Hy _]. destruct Hz as [Hz _].
+    pose proof (find_tt_NoDup _ y Hn Hy) as F1. pose proof (find_tt_NoDup _ z Hn Hz) as F2. rewrite E in F1. rewrite F1 in F2.
+    inversion F2; subst. congruence.
+Qed.
+
+(* static hypotheses of maximality: no running task, every parent of an offered task has variables, the parent
+   relation is acyclic (a rank exists), runtimes are positive *)
+Record max_hyp (I : tinst) (rank : Z -> Z) : Prop := mkMH {
+  mh_wf : wf_inst I;
+  mh_now : 0 <= ti_now I;
+  mh_norun : forall x, In x (ti_tasks I) -> is_running x = false;
+  mh_parents : forall x, In x (ti_tasks I) -> tt_nparents x = Z.of_nat (length (tt_parents x));
+  mh_rank : forall x pid, In x (ti_tasks I) -> In pid (tt_parents x) -> rank pid < rank (tt_id x);
+  mh_rank0 : forall id, 0 <= rank id;
+  mh_runtime : forall x s, In x (ti_tasks I) -> In s (tt_strats x) -> 0 < st_runtime s }.
+
+Definition optimal (I : tinst) (a : assignment) : Prop :=
+  sat (gen_tetri I) a = true /\ forall a', sat (gen_tetri I) a' = true -> objective (gen_tetri I) a' <= objective (gen_tetri I) a.
+
+Theorem tetri_maximal : forall I rank a x pl, max_hyp I rank -> optimal I a ->
+  In x (ti_tasks I) -> rewarded_f I x = true -> readback_task I a x = None -> pl_task pl = tt_id x ->
+  ~ feasible (conv_tetri I) (to_pinst I) (pl :: plan_of (readback I a)).
+Proof.
+  intros I rank a x pl M [Hsat Hopt] Hx Hrew Rx Epl Hfeas.
+  pose proof (mh_wf I rank M) as W.
+  assert (Hfree : free_tasks I = ti_tasks I) by (apply free_all; apply M).
+  set (p' := pl :: plan_of (readback I a)).
+  assert (Hfind : forall y, In y (ti_tasks I) -> find_pl p' (tt_id y) = if tt_id y =? tt_id x then Some pl else readback_task I a y).
+  { intros y Hy. unfold p'. cbn [find_pl]. rewrite Epl, (Z.eqb_sym (tt_id x) (tt_id y)).
+    destruct (tt_id y =? tt_id x); [reflexivity|]. apply find_pl_readback; [apply W|]. rewrite Hfree. auto. }
+  assert (CH : cpl_hyp I rank p').
+  { constructor; try apply M; auto. intros y Hy My. rewrite (Hfind y Hy). destruct (tt_id y =? tt_id x); [eauto|].
+    assert (Hyf : In y (free_tasks I)) by (rewrite Hfree; auto).
+    apply (cellsum_one_readback I a Hsat y Hyf). rewrite (must_stay_cellsum I a Hsat y Hyf My). lia. }
+  pose proof (plan_sat I rank p' CH) as Hsat'.
+  specialize (Hopt _ Hsat').
+  rewrite (obj_eq I _ (mh_norun I rank M) Hsat'), (obj_eq I a (mh_norun I rank M) Hsat) in Hopt.
+  (* the new assignment is worth the old one plus the reward of the added cell *)
+  destruct (plan_cell I rank p' CH x pl Hx) as [w [s [_ [_ [_ [Ht _]]]]]].
+  { rewrite (Hfind x Hx), Z.eqb_refl. reflexivity. }
+  pose proof (reward_num_pos I _ (wf_disc I W) Ht) as Hpos.
+  assert (Hge : sumf (fun y => if rewarded_f I y then taskval I a y else 0) (ti_tasks I) +
+                sumf (fun y => if tt_id y =? tt_id x then reward_num I (pl_start pl) else 0) (ti_tasks I) <=
+                sumf (fun y => if rewarded_f I y then taskval I (assign_of_plan I rank p') y else 0) (ti_tasks I)).
+  { rewrite <- sumf_plus. apply sumf_le. intros y Hy.
+    assert (Hyf : In y (free_tasks I)) by (rewrite Hfree; auto).
+    rewrite (taskval_readback I a y Hsat Hyf), (taskval_readback I _ y Hsat' Hyf).
+    pose proof (plan_readback I rank p' CH y Hy) as PR. rewrite (Hfind y Hy) in PR.
+    destruct (tt_id y =? tt_id x) eqn:E.
+    - assert (y = x).
+      { pose proof (find_tt_NoDup _ y (wf_ids I W) Hy) as F1. pose proof (find_tt_NoDup _ x (wf_ids I W) Hx) as F2.
+        apply Z.eqb_eq in E. rewrite E in F1. rewrite F1 in F2. now inversion F2. }
+      subst y. rewrite PR, Rx, Hrew. lia.
+    - destruct (readback_task I a y) as [q|] eqn:Ry; rewrite PR; destruct (rewarded_f I y); lia. }
+  rewrite (sumf_select _ tt_id (fun y => if tt_id y =? tt_id x then reward_num I (pl_start pl) else 0) (ti_tasks I) x (wf_ids I W) Hx) in Hge.
+  - cbn beta in Hge. rewrite Z.eqb_refl in Hge. lia.
+  - intros y _ Hne. destruct (tt_id y =? tt_id x) eqn:E; [lia|reflexivity].
+Qed.
